@@ -593,6 +593,39 @@ func opChangeScalarKind(e *Editor, ws *Workspace) (*Edit, bool) {
 		File: s.file.Path, ElemID: s.fld.ID, Mention: []string{numStr(s.fld.Number), `"` + s.fld.Name + `"`}}, true
 }
 
+func opChangeMapKind(e *Editor, ws *Workspace) (*Edit, bool) {
+	sites := fieldSites(ws, func(s fieldSite) bool { return s.fld.MapKey != "" })
+	if len(sites) == 0 {
+		return nil, false
+	}
+	s := sites[e.pick("site", len(sites))]
+	keyKinds := []string{"string", "int32", "int64", "uint32", "uint64", "sint32", "sint64", "fixed32", "fixed64", "sfixed32", "sfixed64", "bool"}
+	if s.fld.TypeKind == "scalar" && e.pick("keyorvalue", 2) == 0 {
+		from := s.fld.Type
+		var to string
+		for {
+			to = Scalars[e.pick("to", len(Scalars))]
+			if to != from {
+				break
+			}
+		}
+		s.fld.Type = to
+		return &Edit{Op: "change-map-value-kind", Desc: fmt.Sprintf("%s.%s: map value %s -> %s", s.msg.Full, s.fld.Name, from, to), Rules: typeChangeRules(from, to),
+			File: s.file.Path, ElemID: s.fld.ID, Mention: []string{`"2"`, `"value"`}}, true
+	}
+	from := s.fld.MapKey
+	var to string
+	for {
+		to = keyKinds[e.pick("tokey", len(keyKinds))]
+		if to != from {
+			break
+		}
+	}
+	s.fld.MapKey = to
+	return &Edit{Op: "change-map-key-kind", Desc: fmt.Sprintf("%s.%s: map key %s -> %s", s.msg.Full, s.fld.Name, from, to), Rules: typeChangeRules(from, to),
+		File: s.file.Path, ElemID: s.fld.ID, Mention: []string{`"1"`, `"key"`}}, true
+}
+
 func localTypes(f *File, kind string) []string {
 	var out []string
 	if kind == "message" {
@@ -1405,6 +1438,7 @@ var BreakingOps = []BreakingOp{
 	{"delete-extension", opDeleteExtension},
 	{"delete-file", opDeleteFile},
 	{"change-scalar-kind", opChangeScalarKind},
+	{"change-map-kind", opChangeMapKind},
 	{"scalar-to-message-or-enum", opScalarToMessageOrEnum},
 	{"retarget-message-field", opRetargetMessageField},
 	{"optional-to-repeated", opOptionalToRepeated},
